@@ -65,6 +65,20 @@ fn scripted(req: Request, log: &Mutex<Vec<String>>) -> Response {
             Ok(req) => Response::text(200, view(&req)),
             Err(resp) => resp,
         }
+    } else if let Some(k) = path.strip_prefix("/fs") {
+        // a file body declared as 10 bytes whose file holds only k < 10: the response fails after its head
+        // (and k body bytes) went out; the directory is leaked on purpose (the file must outlive the handler)
+        let dir = Box::leak(Box::new(temp_dir::TempDir::new().unwrap()));
+        let p = dir.child("body");
+        std::fs::write(&p, &b"0123456789"[..(num(k) as usize).min(10)]).unwrap();
+        let mut r = Response::new(200);
+        r.body = servlin::internal::ResponseBody::File(p, 10);
+        r
+    } else if path == "/fm" {
+        // a file body whose file does not exist: the head goes out, then opening fails
+        let mut r = Response::new(200);
+        r.body = servlin::internal::ResponseBody::File(PathBuf::from("/nonexistent-dir-servlin-verif/body"), 10);
+        r
     } else if path == "/d" {
         Response::drop_connection()
     } else if path == "/p" {
@@ -83,6 +97,15 @@ fn cache_dir(kind: &str, tmp: &temp_dir::TempDir) -> Option<PathBuf> {
     }
 }
 
+static RESET_SEEN: std::sync::atomic::AtomicBool = std::sync::atomic::AtomicBool::new(false);
+fn reset_mark() -> &'static str {
+    if RESET_SEEN.swap(false, std::sync::atomic::Ordering::SeqCst) {
+        " reset=1"
+    } else {
+        ""
+    }
+}
+
 fn read_all(client: &mut std::net::TcpStream) -> Vec<u8> {
     client.set_read_timeout(Some(std::time::Duration::from_secs(5))).unwrap();
     let mut out = Vec::new();
@@ -91,8 +114,12 @@ fn read_all(client: &mut std::net::TcpStream) -> Vec<u8> {
         match client.read(&mut buf) {
             Ok(0) => break,
             Ok(n) => out.extend_from_slice(&buf[..n]),
-            // the server closed with unread data in its receive queue: the kernel answers RST
-            Err(e) if e.kind() == std::io::ErrorKind::ConnectionReset => break,
+            // the server closed with unread data in its receive queue: the kernel answers RST, and the client
+            // may lose response bytes it had not read yet (TCP behaviour, not the library's): mark the transcript
+            Err(e) if e.kind() == std::io::ErrorKind::ConnectionReset => {
+                RESET_SEEN.store(true, std::sync::atomic::Ordering::SeqCst);
+                break;
+            }
             Err(_) => {
                 out.extend_from_slice(b"<TIMEOUT>");
                 break;
@@ -128,12 +155,19 @@ fn direct(toks: &[&str]) -> String {
     };
     // wait until the client has delivered everything, so that reads never see a partial stream
     writer.join().unwrap();
+    // the client reads while the server works (as a real client does): when the server closes with unread
+    // request bytes in its receive queue the kernel sends RST, and a client that has not yet read what it
+    // was sent can lose it
+    let reader = {
+        let mut c = client.try_clone().unwrap();
+        std::thread::spawn(move || read_all(&mut c))
+    };
     let permit = Permit::new();
     futures_lite::future::block_on(handle_http_conn(permit.new_sub(), Token::new(), conn, cache, small, handler));
-    let wire = read_all(&mut client);
+    let wire = reader.join().unwrap();
     let files = std::fs::read_dir(tmp.path()).unwrap().count();
     let log = log.lock().unwrap().join(",");
-    format!("log=[{log}] wire={} files={files}", digest_wire(&wire))
+    format!("log=[{log}] wire={} files={files}{}", digest_wire(&wire), reset_mark())
 }
 
 /// The transcript is compared in full when small, else by length + digest.
@@ -218,9 +252,9 @@ fn server(toks: &[&str], idle: bool) -> String {
     }
     let log = log.lock().unwrap().join(",");
     if idle {
-        format!("log=[{log}] wire={} files={files} idle={idle_files}", digest_wire(&wire))
+        format!("log=[{log}] wire={} files={files} idle={idle_files}{}", digest_wire(&wire), reset_mark())
     } else {
-        format!("log=[{log}] wire={} files={files}", digest_wire(&wire))
+        format!("log=[{log}] wire={} files={files}{}", digest_wire(&wire), reset_mark())
     }
 }
 
